@@ -189,8 +189,14 @@ func (e Float32Engine) Add(a Tensor, b Tensor, opts ...FuncOpt) (retVal Tensor, 
 	var hdrA, hdrB, hdrReuse *storage.Header
 	var dataA, dataB, dataReuse []float32
 
-	if hdrA, hdrB, hdrReuse, _, _, _, _, _, err = prepDataVV(a, b, reuse); err != nil {
+	var useIter bool
+	if hdrA, hdrB, hdrReuse, _, _, _, useIter, _, err = prepDataVV(a, b, reuse); err != nil {
 		return nil, errors.Wrapf(err, "Float32Engine.Add")
+	}
+	if useIter {
+		// the destination needs an iterator, or is laid out in the other data order: the
+		// flat kernels below would fill it position by position
+		return e.StdEng.Add(a, b, opts...)
 	}
 	dataA = hdrA.Float32s()
 	dataB = hdrB.Float32s()
